@@ -286,6 +286,9 @@ class Evaluator:
             k = self.ev(e.key)
             v = self.ev(e.value)
             res = ("dict", k, v, srcs[0] if len(srcs) == 1 else tuple(srcs))
+            if conds:
+                # a filtered dict comprehension carries its filters (5th slot)
+                res = res + (tuple(conds),)
         else:
             el = self.ev(e.elt)
             res = ("seq", ctor, el, srcs[0] if len(srcs) == 1 else tuple(srcs),
@@ -502,6 +505,12 @@ class Evaluator:
                 return ("call", n, args, kwargs)
             if n in ("immutabledict", "dict") and len(args) == 1 and not kwargs:
                 return args[0]
+            # empty containers spelled as calls are the empty literals
+            if not args and not kwargs:
+                if n in ("list", "tuple", "set", "frozenset"):
+                    return ("lit", n if n != "frozenset" else "set", ())
+                if n == "dict":
+                    return ("litdict", (), ())
             if n == "cast" and len(args) == 2:
                 return args[1]      # typing.cast is the identity
             if n == "zip":
